@@ -48,8 +48,7 @@ ChildSlots(a, slot) ==
               [] a.k \in {"def", "sub", "pipe"} -> FALSE
               [] OTHER -> slot.lp
       fn == CASE a.k = "def" -> TRUE
-              [] a.k \in {"sub", "pipe"} -> FALSE
-              [] OTHER -> slot.fn
+              [] OTHER -> slot.fn          \* (a subshell inside a function still executes it)
   IN [i \in 1..Len(tys) |-> Slot(tys[i], lp, fn)]
 
 Init == toks = <<>> /\ slots = <<Slot("C", FALSE, FALSE)>> /\ sz = 0
@@ -214,7 +213,8 @@ AlphaNest == {MK0, TICK, BRK(1), BRK(2), CNT(1), CNT(2), FOR("ab"), T0("while"),
 AlphaAndOr4 == {MK0, MK1, PR, NIL, T0("and"), T0("or"), T0("not")}
 
 \* C02: functions called from loops, return
-AlphaFnLoop == {MK0, PR, DEFN("f"), CMD("f"), RET(5), RET(-1), BRK(1), FOR("ab"), T0("seq"), T0("and"), T0("not")}
+AlphaFnLoop == {MK0, PR, DEFN("f"), CMD("f"), RET(5), RET(-1), BRK(1), EXIT(4), FOR("ab"), T0("seq"), T0("and"),
+                T0("not"), T0("sub"), T0("pipe")}
 
 \* C02: functions, return, command search
 AlphaFuncs ==
